@@ -212,6 +212,11 @@ func (s *Script) assert(t Term) {
 	if t == "true" {
 		return
 	}
+	if strings.Contains(t, "q!") && !strings.Contains(t, "(forall ((q!") && !strings.Contains(t, "(exists ((q!") {
+		// a side fact about a term that mentions a bound variable of a specification quantifier: it cannot
+		// be stated at top level; dropping it only weakens what the solver knows
+		return
+	}
 	s.asserts = append(s.asserts, t)
 }
 
@@ -237,6 +242,7 @@ const preludeText = `(define-fun wrapu ((x Int) (m Int)) Int (mod x m))
 (declare-fun strlen (Int) Int)
 (assert (forall ((s Int)) (! (>= (strlen s) 0) :pattern ((strlen s)))))
 (declare-fun strcat (Int Int) Int)
+(assert (forall ((a Int) (b Int)) (! (= (strlen (strcat a b)) (+ (strlen a) (strlen b))) :pattern ((strcat a b)))))
 (declare-fun implements (Int Int) Bool)
 (declare-fun sidx (Int Int) Int)
 (assert (forall ((o Int) (i Int)) (! (= (sidx o i) (+ o i)) :pattern ((sidx o i)))))
